@@ -130,10 +130,11 @@ type jobResult struct {
 	GlobalR     []string               `json:"mutable_global_reads,omitempty"`
 	MapRanges   int                    `json:"map_ranges,omitempty"`
 	Funcs       []string               `json:"functions_encoded,omitempty"`
+	Notes       map[string]string      `json:"notes,omitempty"`
 }
 
 var stats struct {
-	forks, merges, mergedPaths, mergeFallbacks, twoVar, memoHits, prunedDomAlts, mapRanges, mergeCacheHits int
+	forks, merges, mergedPaths, mergeFallbacks, twoVar, memoHits, prunedDomAlts, mapRanges, mergeCacheHits, impliedBranches int
 }
 
 var cur *jobResult
@@ -461,7 +462,7 @@ func runJob(j job) *jobResult {
 	res := &jobResult{ID: j.ID, Harness: j.Harness, Args: j.Args, Asserts: map[string]*assertStat{}, PanicSites: map[string]int{}}
 	cur = res
 	stats = struct {
-		forks, merges, mergedPaths, mergeFallbacks, twoVar, memoHits, prunedDomAlts, mapRanges, mergeCacheHits int
+		forks, merges, mergedPaths, mergeFallbacks, twoVar, memoHits, prunedDomAlts, mapRanges, mergeCacheHits, impliedBranches int
 	}{}
 	globalWrites = map[string]bool{}
 	globalReads = map[string]bool{}
@@ -503,7 +504,7 @@ func runJob(j job) *jobResult {
 		it := top.items[len(top.items)-1]
 		top.items = top.items[:len(top.items)-1]
 		wlStack = []*wl{top}
-		rs = &runState{decisions: it.dec, initDoms: it.doms, occ: map[ssa.Instruction]int{}}
+		rs = &runState{decisions: it.dec, initDoms: it.doms, occ: map[ssa.Instruction]int{}, ptrace: it.trace}
 		asciiKnown = map[*term]bool{}
 		deferStacks = map[*frame][]deferred{}
 		resetGlobals()
